@@ -39,6 +39,31 @@ def rewind_on_stream_retry(ctx):
     srp = [x for x in ast.walk(rl.try_) if isinstance(x, ast.Call) and norm(x.func) == 'StreamReaderProgress']
     ok = len(srp) == 1 and norm(q.argn(srp[0], 'callbacks', 1)) == norm(c.args[0]) and "['Body']" in norm(q.argn(srp[0], 'stream', 0))
     ctx.ob(f, 'StreamReaderProgress(response[Body], callbacks) per attempt, same callbacks as the rewind', ok, 'reads and rewind must report to the same callbacks')
+    # ... and every chunk is read through that progress stream, whatever wrappers are put round it on the way
+    its = [x for x in ast.walk(rl.try_) if isinstance(x, ast.Call) and norm(x.func) == 'DownloadChunkIterator']
+    g = ctx.cfg(f)
+    if len(srp) == 1 and its:
+        res = g.path_conditions(g.nodes_of(srp[0]), [n for it in its for n in g.nodes_of(it)], labels=g.NORMAL, with_nodes=True)
+        ctx.need(res, 'no path from the progress stream to the chunk iterator')
+        bad = []
+        for conds, nodes in res:
+            via = set()        # names that hold the progress stream, possibly wrapped
+            for n in nodes[:-1]:
+                st = n.ast if n.kind == 'stmt' else None
+                if isinstance(st, ast.Assign) and len(st.targets) == 1 and isinstance(st.targets[0], ast.Name):
+                    v = st.value
+                    carries = any(x is srp[0] for x in ast.walk(v)) or (isinstance(v, ast.Name) and v.id in via) or \
+                        (isinstance(v, ast.Call) and any(isinstance(a, ast.Name) and a.id in via for a in list(v.args) + [k.value for k in v.keywords]))
+                    if carries:
+                        via.add(st.targets[0].id)
+                    else:
+                        via.discard(st.targets[0].id)
+            it = [i for i in its if nodes[-1] in g.nodes_of(i)][0]
+            a0 = q.argn(it, 'body', 0)
+            if not ((isinstance(a0, ast.Name) and a0.id in via) or (a0 is not None and any(x is srp[0] for x in ast.walk(a0)))):
+                bad.append(' and '.join(('' if pol else 'not ') + norm(e) for e, pol in conds) or 'always')
+        ctx.ob(f, 'the chunk iterator reads through the StreamReaderProgress of this attempt on every path', not bad,
+               f'when {sorted(set(bad))} the chunks are read from a stream that does not contain the progress reader: no on_progress for those bytes')
     adv = [n for n in ast.walk(rl.try_) if isinstance(n, ast.AugAssign) and isinstance(n.target, ast.Name) and n.target.id in cursors]
     ok = len(adv) == 1 and isinstance(q.in_loop(adv[0]), ast.For) and norm(adv[0].value) == f'len({norm(q.in_loop(adv[0]).target)})'
     ctx.ob(f, 'cursor += len(chunk) for every chunk read', ok, 'the cursor must count exactly the bytes read in this attempt')
